@@ -262,6 +262,13 @@ def plan_C15(ctx, rt):
         os.remove(cases)
     except OSError:
         pass
+    # diagnostic, never a verdict: does the extension parser refuse at the check the transcription names?
+    diag = None
+    if tier == "thorough" and not viol:
+        rd = rt.tlc_trace("TablesTrace.tla", TRACE_CFG + "INVARIANT DiagExtErrClass\n", res["trace"], view="all", timeout=2400)
+        diag = bool(rd["accepted"])
+        if not diag:
+            rt.log("NOTE: error-class diagnostic disagrees with Tables!ExtDecodeStep (not a verdict): %s" % rd["mismatch"][:300])
     cov = {"states": max(mc["states"], 1), "transitions": max(mc["transitions"], 1),
            "traces_validated_against_impl": res["lines"] if not viol else max(res["lines"] - 1, 0),
            "samples": res["samples"], "evaluations": res["lines"], "distinct_nontrivial": res["nontriv"],
@@ -272,7 +279,7 @@ def plan_C15(ctx, rt):
            "enumerated_cases_C15": ncases, "distinct_cases_executed": res["distinct"], "trace_lines_checked": res["events"],
            "mc_runs": [{"cfg": "MCTables(Tier=%s, Dev=%s)" % (tier, dev), "states": mc["states"], "transitions": mc["transitions"], "completed": mc["completed"]}],
            "invariants": ["MCTables!Sane", "MCTables!Typed", "TablesTrace!InvC15", "TablesTrace!TraceAccepted (every enumerated case executed)"],
-           "exhaustive": False, "selftest": selftest, "dev": dev}
+           "exhaustive": False, "selftest": selftest, "dev": dev, "ext_error_class_agrees_with_transcription": diag}
     rc = _finish(ctx, rt, pid, "model_checking", cov, viol, res["known"], known, ASSUME_C15)
     if rc == 0:
         rt.log("OK %s tier=%s: %d shapes enumerated by TLC (%d for C15), %d executions on the real code validated, %.0fs"
